@@ -172,7 +172,10 @@ func checkStructure(n *node.Node) error {
 
 func runCase(t *rapid.T) {
 	nVal := rapid.IntRange(1, 4).Draw(t, "validators")
-	cfg := node.Config{Genesis: node.EqualGenesis(nVal), BatchSize: nVal + 1, KeepEvents: rapid.SampledFrom([]int{-1, 2, 300}).Draw(t, "keepEvents")}
+	cfg := node.Config{Genesis: node.EqualGenesis(nVal), BatchSize: nVal + 1, KeepEvents: rapid.SampledFrom([]int{-1, 2, 300, node.KeepEventsNone}).Draw(t, "keepEvents"),
+		// a small block cache is drained by a few consecutive removals: the removal that empties it refills it from the database
+		// (a branch of RemoveBlock of its own; seeded C13-v hid a second synced write there). 515 = the engine's default.
+		MaxBlockCache: rapid.SampledFrom([]int{2, 3, 515, 515}).Draw(t, "cache")}
 	bigBlocks := rapid.IntRange(0, 2).Draw(t, "bigBlocks") == 0
 	if bigBlocks {
 		cfg.MaxTxLength = 256 * 1024 // a chain configured for large payloads: one block's batch spans several WAL blocks
@@ -198,6 +201,9 @@ func runCase(t *rapid.T) {
 		var s step
 		kind := rapid.SampledFrom([]string{"apply", "apply", "apply", "delete", "tiebreak", "tiebreak"}).Draw(t, "kind")
 		fl := map[string]bool{}
+		if cfg.MaxBlockCache < 10 && len(steps) > 0 && steps[len(steps)-1].Kind == "delete" && rapid.IntRange(0, 2).Draw(t, "deleteOn") != 0 {
+			kind = "delete" // removals in a row (a rollback), so that a small cache runs empty
+		}
 		if pb := parked[tip.Header.Height+1]; pb != nil && bytes.Equal(pb.Header.PreviousBlockID, tip.Header.ID) && rapid.IntRange(0, 3).Draw(t, "restoreParked") != 0 {
 			kind = "restore"
 		}
@@ -381,6 +387,15 @@ func runCase(t *rapid.T) {
 		}, "crash", "step-"+steps[j].Kind, "landed-"+landed)
 	}
 	evid.R.Label("histories", 1)
+	if cfg.MaxBlockCache < 10 && steps[j].Kind == "delete" {
+		run := 0
+		for i := j; i >= 0 && steps[i].Kind == "delete"; i-- {
+			run++
+		}
+		if run >= cfg.MaxBlockCache {
+			evid.R.Label("target-removal-drains-the-block-cache", 1)
+		}
+	}
 }
 
 func TestCrashPoints(t *testing.T) { rapid.Check(t, runCase) }
